@@ -80,3 +80,30 @@ package rpm
 //@   ensures [C15 C14 C02] name: result == old(info.Name) + "-" + rpmVersion(old(info.Version), old(info.Prerelease), old(info.VersionMetadata)) + "-" + rpmRelease(old(info.Release)) + "." + info.Arch + ".rpm"
 //@   ensures [C15] extension: strings.HasSuffix(result, r.ConventionalExtension())
 //@   modifies [C11 C12] &info.Arch, &info.Release
+//
+//@ spec func firstLine(s string) string {
+//@     i := strings.Index(s, "\n")
+//@     if i < 0 { return s }
+//@     return s[:i]
+//@ }
+//
+//@ spec func nzs(a, b string) string {
+//@     if a != "" { return a }
+//@     return b
+//@ }
+//
+//@ func buildRPMMeta(info *nfpm.Info) (meta *rpmpack.RPMMetaData, err error)
+//@   requires info != nil
+//@   ensures [C02] name: implies(err == nil, meta.Name == old(info.Name))
+//@   ensures [C02 C14 C15] version: implies(err == nil, meta.Version == rpmVersion(old(info.Version), old(info.Prerelease), old(info.VersionMetadata)))
+//@   ensures [C02 C14 C15] release: implies(err == nil, meta.Release == rpmRelease(old(info.Release)))
+//@   ensures [C02 C14] epoch-parsed: implies(err == nil && old(info.Epoch) != "", ufBool("parseUintOK", old(info.Epoch), 10, 32) && int(meta.Epoch) == ufInt("parseUintVal", old(info.Epoch), 10, 32))
+//@   ensures [C02 C14] bad-epoch-rejected: implies(old(info.Epoch) != "" && !ufBool("parseUintOK", old(info.Epoch), 10, 32), err != nil)
+//@   ensures [C02 C15] arch: implies(err == nil, meta.Arch == old(info.Arch) && meta.OS == old(info.Platform))
+//@   ensures [C02] identity-fields: implies(err == nil, meta.Licence == old(info.License) && meta.URL == old(info.Homepage) && meta.Vendor == old(info.Vendor) && meta.Group == old(info.RPM.Group))
+//@   ensures [C02] packager: implies(err == nil, meta.Packager == nzs(old(info.RPM.Packager), old(info.Maintainer)))
+//@   ensures [C02] description: implies(err == nil, meta.Description == old(info.Description) && meta.Summary == nzs(old(info.RPM.Summary), firstLine(old(info.Description))))
+//@   ensures [C02 C07] buildhost: implies(err == nil && old(info.RPM.BuildHost) != "", meta.BuildHost == old(info.RPM.BuildHost))
+//@   ensures [C07] buildtime: implies(err == nil && !old(info.MTime.IsZero()), meta.BuildTime == old(info.MTime))
+//@   ensures [C17] compressor-default: implies(err == nil, meta.Compressor == nzs(old(info.RPM.Compression), "gzip:-1"))
+//@   modifies [C11 C12] &info.RPM.Compression, flag("envRead"), flag("clockRead")
